@@ -629,7 +629,7 @@ while True:
             c += d
         else:
             s += d
-    out = name.encode() + b"#" + c + b"#" + s
+    out = name.encode() + b"#" + c.hex().encode() + b"#" + s.hex().encode()
     print(json.dumps({"Direction": "client-to-server", "Content": base64.b64encode(out).decode(), "Time": "2020-01-01T12:00:00.000000"}))
     print()
     print("{}", flush=True)
